@@ -1,67 +1,88 @@
 (* C03 — the invariant along arbitrary histories of the whole operation
-   language except gc and the allow-list transfer inside SetPeer. *)
+   language except gc (SetPeer includes the allow-list transfer). *)
 From Coq Require Import List ZArith Bool Arith Lia.
 From Verif Require Import lib.Wire c03.Int64 c03.Model c03.Spec c03.Proofs_Int64 c03.Proofs_Base
      c03.Proofs_Sum c03.Proofs_Reach c03.Proofs_Link c03.Proofs_Targets c03.Proofs_Frames c03.Proofs_Frames2
      c03.Proofs_Frames3 c03.Proofs_Kill c03.Proofs_OpsMem c03.Proofs_Done c03.Proofs_OpsDone c03.Proofs_OpsNew
-     c03.Proofs_OpsOpen c03.Proofs_Hist c03.Proofs_Link2 c03.Proofs_OpsRepar.
+     c03.Proofs_OpsOpen c03.Proofs_Hist c03.Proofs_Link2 c03.Proofs_Transfer c03.Proofs_OpsRepar c03.Proofs_SetPeer.
 Import ListNotations.
 Local Open Scope Z_scope.
 
 Definition InvL (c : config) (st : state) (a : astate) : Prop := Inv c (scopes st) a /\ Link st a.
 
-(* callers' obligations for every operation but gc; for SetPeer the allow-list
-   transfer (allow-listed connection, peer not allowed at that address) is excluded *)
+(* callers' obligations for every operation but gc *)
 Definition wf_op2 (c : config) (st : state) (a : astate) (o : op) : Prop :=
   match o with
   | OSetPeer i q =>
-      exists ac, nget (aconns a) i = Some ac /\
-                 (ac_peer ac = None -> ac_allow ac = false \/ ep_allowed_peer c q (ac_ep ac) = true) /\
-                 novf (scopes st) (mem (use_of (scopes st) (Conn i)))
+      (exists ac, nget (aconns a) i = Some ac) /\ novf (scopes st) (mem (use_of (scopes st) (Conn i)))
   | OSetProto j _ | OSetSvc j _ =>
       (exists s, nget (astreams a) j = Some s) /\ novf (scopes st) (mem (use_of (scopes st) (Stream j)))
   | OGC => False
   | _ => wf_op st a o
   end.
 
+(* SetPeer: the successor is the candidate the model realises; it is also the
+   one the monitor picks (every earlier candidate disagrees on the system scope) *)
+Lemma set_peer_picked : forall c st a i q,
+  cfg_ok c -> InvL c st a -> wf_op2 c st a (OSetPeer i q) ->
+  let '(st', cls) := step c st (OSetPeer i q) in
+  exists pre post, astep c a (OSetPeer i q) cls (o_aflag (model_obs st st' (OSetPeer i q) cls))
+                   = pre ++ anextT c st a (OSetPeer i q) :: post /\
+    InvL c st' (anextT c st a (OSetPeer i q)) /\
+    (forall cand, In cand pre -> usage_A cand System <> usage_A (anextT c st a (OSetPeer i q)) System).
+Proof.
+  intros c st a i q LO [I L] ((ac & Ga) & Ov). pose proof (set_peer_full c st a i q ac LO I L Ga Ov) as H.
+  unfold anextT. cbn [step]. destruct (set_peer c st i q) as [st' cls]. cbn [model_obs o_aflag].
+  destruct H as (pre & a' & post & El & Ep & Ia & La & Hm). rewrite Ep.
+  exists pre, post. split; [exact El|]. split; [split; assumption | exact Hm].
+Qed.
+
 Theorem step_inv2 : forall c st a o,
-  cfg_ok c -> InvL c st a -> wf_op2 c st a o -> InvL c (fst (step c st o)) (anext c st a o).
+  cfg_ok c -> InvL c st a -> wf_op2 c st a o -> InvL c (fst (step c st o)) (anextT c st a o).
 Proof.
   intros c st a o LO [I L] Wf.
-  assert (Core : wf_op st a o -> InvL c (fst (step c st o)) (anext c st a o)).
-  { intros W. split; [apply step_inv; assumption | apply link_core; assumption]. }
-  destruct o; cbn [wf_op2] in Wf; try (apply Core; exact Wf); try contradiction.
-  - destruct Wf as (ac & Ga & Hno & Ov). apply (set_peer_inv c st a i q ac LO I L Ga Hno Ov).
-  - destruct Wf as ((s & Gs) & Ov). apply (set_proto_inv c st a j p s LO I L Gs Ov).
-  - destruct Wf as ((s0 & Gs) & Ov). apply (set_svc_inv c st a j s s0 LO I L Gs Ov).
+  assert (Core : wf_op st a o -> match o with OSetPeer _ _ => False | _ => True end ->
+                 InvL c (fst (step c st o)) (anextT c st a o)).
+  { intros W No. rewrite (anextT_other c st a o No). split; [apply step_inv; assumption | apply link_core; assumption]. }
+  destruct o; cbn [wf_op2] in Wf; try (apply Core; [exact Wf | exact Logic.I]); try contradiction.
+  - pose proof (set_peer_picked c st a i q LO (conj I L) Wf) as H.
+    destruct (step c st (OSetPeer i q)) as [st' cls]. destruct H as (pre & post & _ & H & _). exact H.
+  - rewrite (anextT_other c st a (OSetProto j p) Logic.I). destruct Wf as ((s & Gs) & Ov). apply (set_proto_inv c st a j p s LO I L Gs Ov).
+  - rewrite (anextT_other c st a (OSetSvc j s) Logic.I). destruct Wf as ((s0 & Gs) & Ov). apply (set_svc_inv c st a j s s0 LO I L Gs Ov).
 Qed.
+
+Fixpoint run_aT (c : config) (st : state) (a : astate) (ops : list op) : astate :=
+  match ops with
+  | [] => a
+  | o :: r => run_aT c (fst (step c st o)) (anextT c st a o) r
+  end.
 
 Fixpoint wf_hist2 (c : config) (st : state) (a : astate) (ops : list op) : Prop :=
   match ops with
   | [] => True
-  | o :: r => wf_op2 c st a o /\ wf_hist2 c (fst (step c st o)) (anext c st a o) r
+  | o :: r => wf_op2 c st a o /\ wf_hist2 c (fst (step c st o)) (anextT c st a o) r
   end.
 
 Lemma init_link : forall c, Link (init_state c) astate0.
 Proof. intros c. split; intros k x H; discriminate. Qed.
 
 Theorem history_inv2_from : forall c ops st a,
-  cfg_ok c -> InvL c st a -> wf_hist2 c st a ops -> InvL c (run c st ops) (run_a c st a ops).
+  cfg_ok c -> InvL c st a -> wf_hist2 c st a ops -> InvL c (run c st ops) (run_aT c st a ops).
 Proof.
   intros c ops. induction ops as [|o r IH]; intros st a LO I Wf; [exact I|].
-  cbn [run run_a]. destruct Wf as [W1 W2]. apply IH; [exact LO | apply step_inv2; assumption | exact W2].
+  cbn [run run_aT]. destruct Wf as [W1 W2]. apply IH; [exact LO | apply step_inv2; assumption | exact W2].
 Qed.
 
 Theorem history_inv2 : forall c ops,
   cfg_ok c -> wf_hist2 c (init_state c) astate0 ops ->
-  InvL c (run c (init_state c) ops) (run_a c (init_state c) astate0 ops).
+  InvL c (run c (init_state c) ops) (run_aT c (init_state c) astate0 ops).
 Proof.
   intros c ops LO Wf. apply history_inv2_from; [exact LO | split; [apply init_inv, LO | apply init_link] | exact Wf].
 Qed.
 
 Corollary usage_is_sum2 : forall c ops t,
   cfg_ok c -> wf_hist2 c (init_state c) astate0 ops ->
-  use_of (scopes (run c (init_state c) ops)) t = usage_A (run_a c (init_state c) astate0 ops) t.
+  use_of (scopes (run c (init_state c) ops)) t = usage_A (run_aT c (init_state c) astate0 ops) t.
 Proof. intros c ops t LO Wf. apply (I_num _ _ _ (proj1 (history_inv2 c ops LO Wf))). Qed.
 
 Corollary within_limits2 : forall c ops t sc,
@@ -74,34 +95,114 @@ Proof.
   intros Hh. apply (I_static _ _ _ I t sc G Hh).
 Qed.
 
-(* an operation that answers an error changes no counter of any scope: this
-   includes the refused re-parenting steps, which leave the connection / stream
-   charged exactly where it was *)
+(* SetPeer has to move the connection to the standard scopes first
+   (transferAllowedToStandard): allow-listed and the peer is not allowed at this
+   address, or left without edges by an earlier refused transfer *)
+Definition transfers (c : config) (a : astate) (o : op) : bool :=
+  match o with
+  | OSetPeer i q =>
+      match nget (aconns a) i with
+      | Some ac =>
+          match ac_peer ac with
+          | Some _ => false
+          | None => (ac_allow ac && negb (ep_allowed_peer c q (ac_ep ac))) ||
+                    match a_par a (Conn i) with [] => true | _ => false end
+          end
+      | None => false
+      end
+  | _ => false
+  end.
+
+(* an operation that answers an error changes no counter of any scope and no
+   holder: this includes the refused re-parenting steps SetProtocol, SetService
+   and SetPeer without transfer, which leave the connection / stream charged
+   exactly where it was *)
 Corollary refusal_is_noop2 : forall c st a o t,
-  cfg_ok c -> InvL c st a -> wf_op2 c st a o ->
+  cfg_ok c -> InvL c st a -> wf_op2 c st a o -> transfers c a o = false ->
   snd (step c st o) <> 0 ->
   match o with ORelease _ _ | ODone _ => False | _ => True end ->
   use_of (scopes (fst (step c st o))) t = use_of (scopes st) t /\
-  holders (anext c st a o) = holders a.
+  anextT c st a o = a.
 Proof.
-  intros c st a o t LO IL Wf Hc Ho. pose proof (step_inv2 c st a o LO IL Wf) as [I' _]. destruct IL as [I L].
-  assert (E : anext c st a o = a).
-  { unfold anext. destruct (step c st o) as [st' cls]. cbn [snd] in Hc.
-    assert (C : (cls =? 0) = false) by (apply Z.eqb_neq, Hc).
-    destruct o; cbn [astep wf_op2 wf_op] in *; try contradiction; rewrite ?C; try reflexivity.
-    - destruct Wf as (ac & Ga & Hno & _). rewrite Ga. destruct (ac_peer ac) eqn:Ap; [reflexivity|].
-      specialize (Hno eq_refl).
+  intros c st a o t LO IL Wf Nt Hc Ho. pose proof (step_inv2 c st a o LO IL Wf) as [I' _]. destruct IL as [I L].
+  assert (E : anextT c st a o = a).
+  { destruct o; try (rewrite (anextT_other c st a _ Logic.I)); unfold anextT, anext; destruct (step c st _) as [st' cls]; cbn [snd] in Hc;
+      assert (C : (cls =? 0) = false) by (apply Z.eqb_neq, Hc);
+      cbn [astep wf_op2 wf_op model_obs o_aflag] in *; try contradiction; rewrite ?C; try reflexivity.
+    - destruct Wf as ((ac & Ga) & _). cbn [transfers] in Nt. rewrite Ga in *. destruct (ac_peer ac) eqn:Ap; [apply pickT_single|].
+      apply orb_false_iff in Nt. destruct Nt as [N1 N2].
       replace (ac_allow ac && negb (ac_allow ac && ep_allowed_peer c q (ac_ep ac))) with false.
-      2:{ destruct (ac_allow ac); [|reflexivity]. destruct Hno as [X|X]; [discriminate | rewrite X; reflexivity]. }
-      destruct (conn_par_nonempty st a i ac L Ga Ap) as (x0 & l0 & Ex). rewrite Ex. reflexivity.
+      2:{ destruct (ac_allow ac); [|reflexivity]. cbn [andb] in *. symmetry. exact N1. }
+      destruct (a_par a (Conn i)); [discriminate | apply pickT_single].
     - destruct Wf as ((s & Gs) & _). rewrite Gs. destruct (as_proto s); reflexivity.
     - destruct Wf as ((s0 & Gs) & _). rewrite Gs. destruct (as_svc s0); [reflexivity|]. destruct (as_proto s0); reflexivity. }
   rewrite E in *. split; [|reflexivity]. rewrite (I_num _ _ _ I' t), (I_num _ _ _ I t). reflexivity.
 Qed.
 
+(* a refused SetPeer - also one that had to take the connection off the
+   allow-list - leaves the connection charged exactly once to each scope of a
+   consistent parent set: where it was, or {} (released from the allow-listed
+   pair / never re-charged, refused by system or transient: the documented
+   intermediate state), or {system, transient} (moved, refused by the peer
+   scope); and every scope's usage is the sum of its holders for that set *)
+Theorem reparent_refused_consistent : forall c st a i q,
+  cfg_ok c -> InvL c st a -> wf_op2 c st a (OSetPeer i q) -> snd (step c st (OSetPeer i q)) <> 0 ->
+  let a' := anextT c st a (OSetPeer i q) in
+  InvL c (fst (step c st (OSetPeer i q))) a' /\
+  (a' = a \/ ((a_par a' (Conn i) = [] \/ a_par a' (Conn i) = [System; Transient]) /\ transfers c a (OSetPeer i q) = true)) /\
+  NoDup (Conn i :: a_par a' (Conn i)).
+Proof.
+  intros c st a i q LO IL Wf Hc a'. pose proof (set_peer_picked c st a i q LO IL Wf) as H.
+  pose proof (step_inv2 c st a _ LO IL Wf) as IL'. fold a' in IL'. split; [exact IL'|].
+  split; [|apply a_par_nodup, (I_wf _ _ _ (proj1 IL'))].
+  destruct (step c st (OSetPeer i q)) as [st' cls]. cbn [snd fst model_obs o_aflag] in *. fold a' in H.
+  destruct H as (pre & post & El & _ & _). destruct Wf as ((ac & Ga) & _).
+  assert (Hin : In a' (astep c a (OSetPeer i q) cls 0)) by (rewrite El; apply in_or_app; right; left; reflexivity).
+  destruct (proj1 (proj2 IL) i ac Ga) as (ci & h & _ & Gh & _).
+  assert (C : (cls =? 0) = false) by (apply Z.eqb_neq, Hc).
+  destruct (ac_peer ac) eqn:Ap.
+  { cbn [astep] in Hin. rewrite Ga, Ap, C in Hin. destruct Hin as [<-|[]]. left. reflexivity. }
+  rewrite (astep_setpeer c a i q ac cls Ga Ap) in Hin. cbv zeta in Hin. rewrite C in Hin.
+  cbn [transfers]. rewrite Ga, Ap.
+  destruct (moved_fields a i ac h [] Gh) as (E1 & _). destruct (moved_fields a i ac h [System; Transient] Gh) as (S1 & _).
+  destruct (ac_allow ac && negb (ac_allow ac && ep_allowed_peer c q (ac_ep ac))) eqn:T.
+  - assert (T' : ac_allow ac && negb (ep_allowed_peer c q (ac_ep ac)) = true) by (destruct (ac_allow ac); [exact T | discriminate]).
+    rewrite T'. cbn [orb]. destruct Hin as [<-|[<-|[<-|[]]]]; [right | right | left; reflexivity].
+    + split; [left; apply (a_par_repar a _ i h [] E1) | reflexivity].
+    + split; [right; apply (a_par_repar a _ i h _ S1) | reflexivity].
+  - destruct (a_par a (Conn i)) eqn:Pa.
+    + rewrite orb_true_r. destruct Hin as [<-|[<-|[]]]; [left; reflexivity | right].
+      split; [right; apply (a_par_repar a _ i h _ S1) | reflexivity].
+    + destruct Hin as [<-|[]]. left. reflexivity.
+Qed.
+
+(* an accepted SetPeer leaves the connection charged to the peer scope and to
+   the (allow-listed) system scope - also when it was charged to no scope before *)
+Theorem setpeer_ok_charges : forall c st a i q ac,
+  cfg_ok c -> InvL c st a -> wf_op2 c st a (OSetPeer i q) -> nget (aconns a) i = Some ac ->
+  snd (step c st (OSetPeer i q)) = 0 ->
+  InvL c (fst (step c st (OSetPeer i q))) (anextT c st a (OSetPeer i q)) /\
+  a_par (anextT c st a (OSetPeer i q)) (Conn i) =
+    [Peer q; if ac_allow ac && ep_allowed_peer c q (ac_ep ac) then ASystem else System].
+Proof.
+  intros c st a i q ac LO IL Wf Ga Hc. split; [apply step_inv2; assumption|].
+  pose proof (set_peer_picked c st a i q LO IL Wf) as H.
+  destruct (step c st (OSetPeer i q)) as [st' cls]. cbn [snd fst model_obs o_aflag] in *. subst cls.
+  destruct H as (pre & post & El & _ & _).
+  destruct (proj1 (proj2 IL) i ac Ga) as (ci & h & Gci & Gh & Epe & _).
+  destruct (ac_peer ac) eqn:Ap.
+  { cbn [astep] in El. rewrite Ga, Ap in El. cbn in El. destruct pre; discriminate. }
+  rewrite (astep_setpeer c a i q ac 0 Ga Ap) in El. cbv zeta in El. cbn [Z.eqb] in El.
+  assert (E : anextT c st a (OSetPeer i q) = ok_state a i q ac (ac_allow ac && ep_allowed_peer c q (ac_ep ac))).
+  { destruct pre as [|x pre]; cbn in El; inversion El as [[X1 X2]]; [reflexivity | destruct pre; discriminate]. }
+  rewrite E. unfold ok_state. unfold a_par. cbn [holders].
+  destruct (set_par_fields a (Conn i) h [Peer q; if ac_allow ac && ep_allowed_peer c q (ac_ep ac) then ASystem else System] Gh) as (F1 & _).
+  rewrite F1, hget_repar, sid_eqb_refl. reflexivity.
+Qed.
+
 Corollary release_all_zero2 : forall c ops t,
   cfg_ok c -> wf_hist2 c (init_state c) astate0 ops ->
-  (forall y h, In (y, h) (holders (run_a c (init_state c) astate0 ops)) -> h_dead h = true \/ h_own h = stat0) ->
+  (forall y h, In (y, h) (holders (run_aT c (init_state c) astate0 ops)) -> h_dead h = true \/ h_own h = stat0) ->
   use_of (scopes (run c (init_state c) ops)) t = stat0.
 Proof.
   intros c ops t LO Wf Z. pose proof (proj1 (history_inv2 c ops LO Wf)) as I.
